@@ -95,10 +95,13 @@ def execute(scn, order_seed=0):
     kinds = scn.get("content") or {p: crnd.choice(CONTENT_KINDS) for p in scn["inst"]}
     tokens = {p: make_content(kinds[p], p) for p in scn["inst"]}
 
+    # "val" = any result that is not None - also the falsy ones (0, False, "", [], {}, ())
+    rtok = {p: (crnd.choice([0, False, "", [], {}, ()]) if crnd.random() < 0.4 else ("result", p)) for p in scn["inst"]}
+
     def make_digest(p):
         def digest(content):
             events.append({"e": "Digest", "p": p, "exact": bool(content is tokens[p] or (type(content) is type(tokens[p]) and content == tokens[p]))})
-            return None if scn["res"][p] == "none" else ("result", p)
+            return None if scn["res"][p] == "none" else rtok[p]
 
         # a plugin that has nothing to declare is usually a plain function without the
         # decorator: both spellings of "no constraints" must mean the same
@@ -135,7 +138,7 @@ def execute(scn, order_seed=0):
             if ok:
                 for plug, val in result.items():
                     sec = getattr(plug, "section", None)
-                    if sec in scn["inst"] and val == ("result", sec):
+                    if sec in scn["inst"] and type(val) is type(rtok[sec]) and val == rtok[sec]:
                         kept.append(sec)
                     else:
                         kept.append("?%r" % (sec,))
